@@ -23,7 +23,7 @@
    Both are transcribed below. gzip and tar byte decoding themselves are not
    modelled (the harness sweeps them on the real code); hashes, signature
    verification and the APKINDEX text parser are Section variables. *)
-From Apko Require Import Base.Prelude Base.Regex Generated.Regexes Generated.IndexConsts.
+From Apko Require Import Base.Prelude Base.Regex Generated.Regexes Generated.IndexConsts Generated.IndexShapes.
 Open Scope string_scope. Open Scope list_scope.
 
 Inductive halg := SHA1 | SHA256.
@@ -126,8 +126,10 @@ Fixpoint sig_pass (keys : list string) (es : list entry) : res (list sigrec) :=
   end.
 
 (* ---- the parse pass: all members as one tar stream ---------------------- *)
-Record index := { i_pkgs : list string; i_desc : list N; i_sig : list N }.
-Definition empty_index : index := {| i_pkgs := []; i_desc := []; i_sig := [] |}.
+(* Signature: nil until a .SIGN. entry is read (io.ReadAll gives a non-nil slice even
+   for an empty body), hence an option *)
+Record index := { i_pkgs : list string; i_desc : list N; i_sig : option (list N) }.
+Definition empty_index : index := {| i_pkgs := []; i_desc := []; i_sig := None |}.
 
 Inductive pres := POk (i : index) | PErr | PUnmodelled.
 
@@ -177,7 +179,7 @@ Section Oracles.
     else if String.eqb (e_name e) description_filename then
       Some {| i_pkgs := i_pkgs idx; i_desc := e_body e; i_sig := i_sig idx |}
     else if has_prefix sign_prefix (e_name e) then
-      Some {| i_pkgs := i_pkgs idx; i_desc := i_desc idx; i_sig := e_body e |}
+      Some {| i_pkgs := i_pkgs idx; i_desc := i_desc idx; i_sig := Some (e_body e) |}
     else None.
 
   Fixpoint read_toks (carried : option meta) (idx : index) (ts : list tok) : pres :=
@@ -211,6 +213,27 @@ Section Oracles.
   Definition sig_verifies (rest : list member) (s : sigrec) : bool :=
     verify (s_key s) (s_alg s) (hash (s_alg s) (raw rest)) (s_sig s).
 
+  (* `for _, sig := range sigs { ... }` with the `verified` flag: the signatures are
+     tried in the order of their entries; the first one RSAVerifyDigest accepts sets
+     verified = true, verifiedSignature = sig.Signature and leaves the loop; a
+     failure is logged and the next one is tried. None = the loop ended with
+     verified == false. (The digest is computed once per algorithm and kept in a
+     map; the value is hash alg indexData either way.) *)
+  Fixpoint verify_loop (ok : sigrec -> bool) (sigs : list sigrec) : option sigrec :=
+    match sigs with
+    | [] => None
+    | s :: sigs' => if ok s then Some s else verify_loop ok sigs'
+    end.
+
+  (* `if index.Signature == nil { index.Signature = verifiedSignature }` *)
+  Definition fill_signature (verified : option (list N)) (i : index) : index :=
+    match i_sig i with
+    | Some _ => i
+    | None => {| i_pkgs := i_pkgs i; i_desc := i_desc i; i_sig := verified |}
+    end.
+  Definition fill_pres (verified : option (list N)) (r : pres) : pres :=
+    match r with POk i => POk (fill_signature verified i) | _ => r end.
+
   (* parseRepositoryIndex. [keys] = the names in the key map (no duplicates). *)
   Definition parse_repository_index (check : bool) (keys : list string) (a : archive) : pres :=
     if check then
@@ -222,16 +245,19 @@ Section Oracles.
              | [] => PErr                                         (* no gzip stream at all *)
              | m1 :: rest =>
                  match sig_pass keys (m_entries m1) with
-                 | Ok [] => PErr                                  (* "no signature with known key" *)
+                 | Ok [] => PErr                                  (* len(sigs) == 0: "no signature with known key" *)
                  | Ok sigs =>
-                     if existsb (sig_verifies rest) sigs          (* first verifying signature wins *)
-                     then index_from_archive rest                 (* fix c87da01: only the verified bytes are parsed *)
-                     else PErr
+                     match verify_loop (sig_verifies rest) sigs with
+                     | None => PErr                               (* !verified *)
+                     | Some s =>                                  (* first verifying signature wins *)
+                         (* fix c87da01: only the verified bytes are parsed *)
+                         fill_pres (Some (s_sig s)) (index_from_archive rest)
+                     end
                  | _ => PErr
                  end
              end
       end
-    else index_from_archive a.
+    else fill_pres None (index_from_archive a).                   (* verifiedSignature stays nil *)
 End Oracles.
 
 (* ---- shouldCheckSignatureForIndex / IndexURL ----------------------------- *)
@@ -250,7 +276,17 @@ Fixpoint sprintf_s (fmt : string) (args : list string) : string :=
 Definition index_url (repo arch : string) : string :=
   sprintf_s index_url_format [repo; arch; index_filename].
 
+(* The test that exempts an index is read from the source (Generated.IndexShapes:
+   exempt_match, with $elem ranging over opts.noSignatureIndexes — a range loop or
+   slices.ContainsFunc). The model understands exactly one test, the comparison of
+   IndexURL(elem, arch) with the index URL; any other text makes the model exempt
+   everything, so that c04_optout_exact (and the comparison with the real function)
+   fails instead of silently keeping the old meaning. *)
+Definition exempt_test (elem arch index : string) : bool :=
+  if String.eqb exempt_match "IndexURL($elem,$arch)==$index" then String.eqb (index_url elem arch) index
+  else true.
+
 Definition should_check (ignore_signatures : bool) (no_sig_indexes : list string)
     (index arch : string) : bool :=
   if ignore_signatures then false
-  else negb (existsb (fun r => String.eqb (index_url r arch) index) no_sig_indexes).
+  else negb (existsb (fun r => exempt_test r arch index) no_sig_indexes).
